@@ -124,7 +124,7 @@ FALLBACK = [
         'ensures /*C14: a re-export is looked for under the reference\'s type name, in a crate other than the one being written*/ '
         'b == (t@ == referenced_import.type_name@ && k@ != data.crate_name@) {', tag='T14b',
         note='the search over all (crate, type name) pairs becomes a function taking the predicate; the predicate stays the source\'s text'),
-    rep(A.span(') .map(|t| (k, t))', '.next()'), '})', tag='T14b', note='end of the predicate closure / of the search'),
+    rep(A.span(') .map(|t| (k, t))', '.min_by(|a, b| a.0.cmp(b.0))'), '})', tag='T14b', note='end of the predicate closure / of the search (which of several answers is taken - the smallest crate name - is not part of the contract)'),
     rep(A.span('used.entry(crate_name)', '.or_insert(BTreeSet::from([ty.as_str()]));'), 'add_one(used, crate_name, ty);', tag='T3', note='entry API'),
 ]
 
